@@ -123,6 +123,27 @@ def sim_flow(ctx: Ctx):
                    f"next-period states are transformed by {sorted(bad)} after the transition functions"
                    if bad else f"next-period states are post-processed by {sorted(ops)} (not recognised)",
                    lhs=v_elt, rhs="v")
+    elif (upd[0] == "comp" and upd[1] == "dict" and len(upd[3]) == 1 and not upd[3][0][2]
+          and upd[3][0][1] == ("call", ("attr", cur, "items"), (), ())):
+        # {name: next_states["next_" + name] ... for name, state in states.items()}
+        k_elt, v_elt = upd[2]
+        kb = upd[3][0][0][1][0]
+        plain = ("sub", ns, ("fstr", (("const", "next_"), kb)))
+        ok_key = k_elt == kb
+        ctx.ob("FLOW:state-update:prefix", ok_key, prog.where(upd),
+               "new states are looked up as next_<state> for every current state" if ok_key else
+               f"state names are derived as {show(k_elt)[:80]}", lhs=k_elt)
+        if v_elt == plain:
+            ctx.ob("FLOW:state-update:values", True, prog.where(upd),
+                   "next-period states are the transition results, unchanged", lhs=v_elt)
+        else:
+            ops = {(callee_name(s) or (s[1][2] if s[1][0] == "attr" else "")).split(".")[-1]
+                   for s in walk(v_elt) if s[0] == "call" and s != ns}
+            bad = ops & VALUE_CHANGING
+            ctx.ob("FLOW:state-update:values", False if bad and plain in set(walk(v_elt)) else None, prog.where(upd),
+                   f"next-period states are transformed by {sorted(bad)} after the transition functions"
+                   if bad else f"next-period states are post-processed by {sorted(ops)} (not recognised)",
+                   lhs=v_elt, rhs=plain)
     else:
         # maybe written as a loop / dict() call: outside vocabulary
         okd = any(s == ns for s in walk(upd))
